@@ -106,7 +106,7 @@ func C13(c *Ctx) {
 	}
 	r.Floor("C13-3", "uses of the marker examined", nm, 5)
 
-	r.Rule("C13-2", "every `range` over a map is order-insensitive by shape: inside the loop no store/map update/effectful call/non-constant return; every value carried around the loop is either unchanged, a constant, or the iteration key taken under `first time ∨ key < accumulator` (strict minimum)")
+	r.Rule("C13-2", "every `range` over a map is order-insensitive by shape: inside the loop no store/map update/effectful call/non-constant return; every value carried around the loop is either unchanged, a constant, the iteration key taken under `first time ∨ key < accumulator` (strict minimum), or a local slice grown by append that reaches a total sort (sort.Strings/Ints/Float64s, slices.Sort) before any other use")
 	ranges := c.mapRanges()
 	r.Note("map_ranges", len(ranges))
 	r.Floor("C13-2", "range statements over maps", len(ranges), 1)
@@ -179,10 +179,44 @@ func (c *Ctx) mapRangeRule(key string, rg *ssa.Range) {
 			}
 		}
 	}
+	// collect-then-sort idiom: s = append(s, <entry>) on a loop-carried local slice that is handed to a total sort
+	// (sort.Strings/Ints/Float64s, slices.Sort) before any other use after the loop
+	collects := map[*ssa.Call]bool{}   // accepted append calls
+	collectArr := map[ssa.Value]bool{} // their varargs arrays
+	for _, in := range header.Instrs {
+		phi, ok := in.(*ssa.Phi)
+		if !ok {
+			continue
+		}
+		var app *ssa.Call
+		nIn := 0
+		for i, p := range header.Preds {
+			if !body[p] {
+				continue
+			}
+			nIn++
+			if ca, ok := phi.Edges[i].(*ssa.Call); ok && core.CalleeName(&ca.Call) == "builtin:append" && ca.Call.Args[0] == ssa.Value(phi) && (app == nil || app == ca) {
+				app = ca
+			} else if phi.Edges[i] != ssa.Value(phi) {
+				app = nil
+				nIn = -100
+			}
+		}
+		if app == nil || nIn < 1 || !c.sortedBeforeUse(phi, app, body) {
+			continue
+		}
+		collects[app] = true
+		if sl, ok := app.Call.Args[1].(*ssa.Slice); ok {
+			collectArr[sl.X] = true
+		}
+	}
 	for b := range region {
 		for _, in := range b.Instrs {
 			switch x := in.(type) {
 			case *ssa.Store:
+				if ia, ok := x.Addr.(*ssa.IndexAddr); ok && collectArr[ia.X] {
+					continue // element of a collected-then-sorted slice
+				}
 				if _, isK := x.Val.(*ssa.Const); !isK {
 					bad("a non-constant value is stored inside the loop (" + c.O.Of(x.Val).String() + "): the result depends on iteration order")
 				} else if _, isLocal := x.Addr.(*ssa.Alloc); !isLocal {
@@ -210,7 +244,7 @@ func (c *Ctx) mapRangeRule(key string, rg *ssa.Range) {
 				if name == "" || (classify(name) != effPure && !isModuleCallee(name)) {
 					bad("an effectful call inside the loop: " + name)
 				}
-				if name == "builtin:append" {
+				if ca, isCall := x.(*ssa.Call); name == "builtin:append" && !(isCall && collects[ca]) {
 					bad("append inside the loop: the collected order depends on iteration order (sort before use and extend this rule)")
 				}
 			}
@@ -237,6 +271,7 @@ func (c *Ctx) mapRangeRule(key string, rg *ssa.Range) {
 				switch {
 				case v == ssa.Value(phi):
 				case isConst(v):
+				case isCollect(v, collects):
 				case isKey(v):
 					// key taken under: first-time flag false, or strict comparison key < acc
 					strict := func(l core.Lit) bool {
@@ -267,6 +302,77 @@ func (c *Ctx) mapRangeRule(key string, rg *ssa.Range) {
 		}
 	}
 	r.Check("C13-2", key, pos, okAll, why)
+}
+
+func isCollect(v ssa.Value, collects map[*ssa.Call]bool) bool {
+	ca, ok := v.(*ssa.Call)
+	return ok && collects[ca]
+}
+
+// totalSorts order their argument completely (equal elements are indistinguishable), so the result does not depend
+// on the order in which the elements were collected.
+var totalSorts = map[string]bool{"sort.Strings": true, "sort.Ints": true, "sort.Float64s": true, "slices.Sort": true}
+
+// sortedBeforeUse: the loop-carried slice phi (grown by app inside the loop body) is used inside the loop only by app,
+// and after the loop it reaches a total sort before any other use.
+func (c *Ctx) sortedBeforeUse(phi *ssa.Phi, app *ssa.Call, body map[*ssa.BasicBlock]bool) bool {
+	if phi.Referrers() == nil {
+		return false
+	}
+	var sortCall *ssa.Call
+	var others []ssa.Instruction
+	for _, rf := range *phi.Referrers() {
+		if _, isDbg := rf.(*ssa.DebugRef); isDbg {
+			continue
+		}
+		if body[rf.Block()] {
+			if rf == ssa.Instruction(app) || rf == ssa.Instruction(phi) {
+				continue
+			}
+			if ph, ok := rf.(*ssa.Phi); ok && ph == phi {
+				continue
+			}
+			return false
+		}
+		if ca, ok := rf.(*ssa.Call); ok && totalSorts[core.CalleeName(&ca.Call)] && len(ca.Call.Args) >= 1 && ca.Call.Args[0] == ssa.Value(phi) && sortCall == nil {
+			sortCall = ca
+			continue
+		}
+		others = append(others, rf)
+	}
+	if sortCall == nil {
+		return false
+	}
+	for _, o := range others {
+		if o.Block() == sortCall.Block() {
+			after := false
+			for _, in := range o.Block().Instrs {
+				if in == ssa.Instruction(sortCall) {
+					after = true
+				}
+				if in == o {
+					break
+				}
+			}
+			if !after {
+				return false
+			}
+		} else if !sortCall.Block().Dominates(o.Block()) {
+			return false
+		}
+	}
+	// the append result itself is only carried round the loop
+	if app.Referrers() != nil {
+		for _, rf := range *app.Referrers() {
+			if _, isDbg := rf.(*ssa.DebugRef); isDbg {
+				continue
+			}
+			if rf != ssa.Instruction(phi) {
+				return false
+			}
+		}
+	}
+	return true
 }
 
 func isConst(v ssa.Value) bool {
